@@ -31,7 +31,12 @@ inductive Err where
   | div0        -- "division by zero"
   | type        -- TypeMismatch
   | expt0       -- "expt: 0 cannot be raised to a negative power"
-  | unmodelled  -- operand combination outside the model (huge exponents)
+  | unmodelled  -- operand combination outside the model
+  | arity       -- ArityMismatch
+  | resource    -- the code starts a computation whose result cannot exist in memory (`BigInt::pow` with an
+                -- exponent ≥ 2^63 on a base other than 0, ±1): num-bigint panics ("memory overflow") or the
+                -- process runs out of memory
+  | inexact     -- the result is a double (computed through `f64::powf`): outside the exact tower
   deriving DecidableEq, Repr
 
 inductive Res (α : Type) where
@@ -487,7 +492,22 @@ def expt (cfg : Cfg) (x y : Num) : Res Num :=
   | .fix l, .big r =>
     if l = 0 then
       if cfg.exptChecked && decide (0 < r) then .ok (.fix 0) else .err .expt0
-    else .err .unmodelled
+    else
+      -- `BigInt::from(l).pow(r.magnitude())`: num-bigint answers at once for the bases ±1 (`is_one()` on the
+      -- magnitude, the sign by the parity of the exponent); any other base with an exponent ≥ 2^63 cannot finish
+      let p : Option Int :=
+        if l = 1 then some 1
+        else if l = -1 then some (if r.natAbs % 2 = 0 then 1 else -1)
+        else none
+      match p with
+      | none => .err .resource
+      | some e => if 0 ≤ r then .ok (normInt e) else fromQ 1 e
+  -- `(BigNum, BigNum)`: the same computation; a bignum base is never ±1
+  | .big _, .big _ => .err .resource
+  -- an exact non-integer exponent, or a ratio base with a bignum exponent: `to_f64().powf(..)`, a double
+  | .fix _, .rat32 _ _ | .fix _, .bigrat _ _ | .big _, .rat32 _ _ | .big _, .bigrat _ _
+  | .rat32 _ _, .rat32 _ _ | .rat32 _ _, .bigrat _ _ | .rat32 _ _, .big _
+  | .bigrat _ _, .rat32 _ _ | .bigrat _ _, .bigrat _ _ | .bigrat _ _, .big _ => .err .inexact
   | .rat32 n d, .fix r =>
     match chk32 r with
     | some e =>
@@ -509,7 +529,6 @@ def expt (cfg : Cfg) (x y : Num) : Res Num :=
     else if r < 0 then
       if cfg.exptChecked then fromQ 1 (l ^ r.natAbs) else normBigRat (1, l ^ r.natAbs)
     else .ok (normInt (l ^ r.toNat))
-  | _, _ => .err .unmodelled
 
 /-! ## exact-integer-sqrt -/
 
